@@ -187,6 +187,30 @@ func runC22x(c c22Case, st *vstat.Stats) *vstat.Failure {
 			return vstat.Failf("bad-case", "%v", err)
 		}
 	}
+	if f := c22CheckAll(sc, &c, host, st); f != nil {
+		return f
+	}
+	if c.Store.Phase2 == nil {
+		return nil
+	}
+	// change the store and export again through the same exporter
+	s2, f := c.Store.applyPhase2(store, ms)
+	if f != nil {
+		return f
+	}
+	c2 := c
+	c2.Store = s2
+	if f := c22CheckAll(sc, &c2, host, st); f != nil {
+		f.Sig = "second-export:" + f.Sig
+		f.Msg = "after changing the store and exporting again through the same exporter: " + f.Msg
+		return f
+	}
+	return nil
+}
+
+// c22CheckAll captures every export format and compares it with the store case.
+func c22CheckAll(sc *hx.Scraper, cp *c22Case, host string, st *vstat.Stats) *vstat.Failure {
+	c := *cp
 	pushable := func(sm *sMetric) bool {
 		k := sm.kind()
 		return k == metrics.Counter || k == metrics.Gauge || k == metrics.Timer
@@ -520,6 +544,9 @@ func TestC22(t *testing.T) {
 						st.Excluded("C22-1")
 					}
 				}
+			}
+			if genPhase2(rt, &c.Store) {
+				st.Class("second-export-after-store-change")
 			}
 			st.Eval()
 			nt := false
